@@ -149,7 +149,7 @@ def build_scenario(rng, flav, ctx, *, max_launch_dbm=5.0, n_jobs=None, span_kw=N
         G.design(equipment, network)
         b = {'ej': ej, 'tj': tj, 'equipment': equipment, 'network': network, 'edesc': {}, 'tdesc': {}}
     elif flav == 'multiband_gen':
-        b = build_multiband(rng)
+        b = build_multiband(rng, dispersion_variants=bool(tk.get('dispersion_variants')))
     else:
         raise ValueError(flav)
     G.reset_sim_params(sim)
@@ -216,7 +216,7 @@ def multibandify(tj, rng, varieties=MB_VARIETIES, only=None):
             cx.append({'from_node': uid, 'to_node': b})
 
 
-def build_multiband(rng):
+def build_multiband(rng, dispersion_variants=False):
     """Generated C+L network: every ROADM designs for two bands, every junction carries a multiband amplifier."""
     ej = G.eqpt_json('eqpt_config_multiband.json')
     equipment = G.make_equipment(ej)
@@ -224,7 +224,7 @@ def build_multiband(rng):
     def rp(r, s):
         return {'design_bands': deepcopy(MB_BANDS)}
     tj, tdesc = G.gen_topology(rng, max_sites=4, max_spans=2, user_amps=False, fused=False, roadm_params=rp,
-                               max_km=110)
+                               max_km=110, dispersion_variants=dispersion_variants)
     multibandify(tj, rng)
     network = G.make_network(tj, equipment)
     G.reset_sim_params(None)
